@@ -10,10 +10,10 @@ from ..base import Result
 from ..snap import safe_call
 
 ID = "C20"
-RULE = ("Label vectors with every class 0..K-1 present (K=1..8, N=K..200, skewed class sizes) and predictions in range drawn as: all right, all "
+RULE = ("Label vectors with every class 0..K-1 present (K=1..8 and 9..24, N=K..200, skewed class sizes; lists and int64/int32/int16/uint8/int8 arrays; arrays are first filled with another labelling, evaluated, and refilled in place) and predictions in range drawn as: all right, all "
         "wrong, one prediction class, random, mostly-right; passed as lists or int arrays. opf_accuracy vs the exact rational formula "
         "1-(1/2K)sum(FP_c/(N-N_c)+FN_c/N_c) within 1e-12, in [0,1], ==1 iff all correct; confusion matrix == pair counts; per-label accuracy == "
-        "recall; purity vs exact rational, in (0,1], ==1 iff every predicted group is pure; normalize vs (x-mean)/std per non-constant column. "
+        "recall; purity vs exact rational, in (0,1], ==1 iff every predicted group is pure; normalize vs (x-mean)/std per non-constant column (column scales 1e-12..1e12). "
         "Non-trivial: K>=3, >=1 error, unequal class sizes; distinct = case hash.")
 ASSUMPTIONS = [
     "domain of the statement: every class 0..K-1 occurs among the true labels, predictions within 0..K-1, equal lengths",
@@ -23,7 +23,7 @@ BUDGET = {
     "quick": {"cases": 40000, "seconds": 90, "shards": 8},
     "thorough": {"cases": 2000000, "seconds": 900, "shards": 16},
 }
-REQUIRED_OBS = ["accuracy_checked", "confusion_checked", "per_label_checked", "purity_checked", "normalize_checked", "all_correct_cases",
+REQUIRED_OBS = ["refilled_in_place_cases", "K>=17_uint8", "accuracy_checked", "confusion_checked", "per_label_checked", "purity_checked", "normalize_checked", "all_correct_cases",
                 "all_wrong_cases", "K=1", "purity_one_with_errors"]
 MIN_NONTRIVIAL = 500
 
@@ -32,12 +32,14 @@ def generate(rng, tier, idx):
     if idx % 8 == 7:
         n, d = int(rng.integers(2, 40)), int(rng.integers(1, 6))
         A = rng.normal(size=(n, d)) * (10.0 ** rng.integers(-3, 4, size=(1, d))) + rng.normal(size=(1, d)) * rng.choice([0, 1, 100])
+        if rng.random() < 0.3:        # whole matrix at a tiny / huge scale: a non-constant column stays non-constant whatever its spread
+            A = rng.normal(size=(n, d)) * (10.0 ** float(rng.choice([-12, -10, -9, -8, -6, 6, 9, 12])))
         if rng.random() < 0.3:
             A[:, int(rng.integers(0, d))] = float(rng.normal())     # a constant column
         if rng.random() < 0.3:
             A = np.round(A, 1)
         return {"kind": "normalize", "A": A.tolist()}
-    K = int(rng.integers(1, 9))
+    K = int(rng.integers(1, 9)) if rng.random() < 0.85 else int(rng.integers(9, 25))
     N = int(rng.integers(K, 201)) if rng.random() < 0.5 else int(rng.integers(K, K + 12))
     p = rng.dirichlet(np.ones(K) * rng.choice([0.3, 1.0, 5.0]))
     labels = list(range(K)) + [int(v) for v in rng.choice(K, size=N - K, p=p)]
@@ -57,7 +59,8 @@ def generate(rng, tier, idx):
         # a class merge: groups stay impure / a relabelling: groups pure although "wrong"
         perm = rng.permutation(K)
         preds = [int(perm[l]) for l in labels]
-    return {"kind": "labels", "labels": labels, "preds": preds, "as_array": bool(rng.random() < 0.5), "dtype": str(rng.choice(["int64", "int32", "int16"]))}
+    return {"kind": "labels", "labels": labels, "preds": preds, "as_array": bool(rng.random() < 0.5), "dtype": str(rng.choice(["int64", "int32", "int16", "uint8", "int8"])),
+            "decoy_shift": int(rng.integers(1, 4))}
 
 
 def check(case):
@@ -100,6 +103,17 @@ def check(case):
     dt = case.get("dtype", "int64")
     L = np.array(labels, dtype=dt) if case["as_array"] else list(labels)
     P = np.array(preds, dtype=dt) if case["as_array"] else list(preds)
+    if case["as_array"] and K >= 2 and case.get("decoy_shift"):
+        # history on the SAME array objects: they first hold another labelling of the same length and classes (the measures are
+        # evaluated on it and discarded), then are refilled in place with the case's vectors
+        sh = case["decoy_shift"]
+        decoy_l = np.array([(v + 1) % K for v in labels], dtype=dt)          # same classes, rotated class sizes
+        decoy_p = np.array([(v + sh) % K for v in labels], dtype=dt)
+        L[:], P[:] = decoy_l, decoy_p
+        for f in (g.opf_accuracy, g.confusion_matrix, g.opf_accuracy_per_label, g.purity):
+            safe_call(f, L, P)
+        L[:], P[:] = np.array(labels, dtype=dt), np.array(preds, dtype=dt)
+        res.see("refilled_in_place_cases")
     L0 = np.array(L, copy=True) if case["as_array"] else list(L)
     P0 = np.array(P, copy=True) if case["as_array"] else list(P)
     cnt = [labels.count(c) for c in range(K)]
@@ -108,6 +122,8 @@ def check(case):
     n_err = sum(FN)
     all_ok = n_err == 0
     res.see("K=1" if K == 1 else "K>1")
+    if K >= 17 and case["as_array"] and dt in ("uint8", "int8"):
+        res.see("K>=17_uint8")
     if all_ok:
         res.see("all_correct_cases")
     if n_err == N:
